@@ -1,1 +1,7 @@
 import Ypv.Props.C02
+#print axioms Ypv.C02.results_located
+#print axioms Ypv.C02.coords_sound
+#print axioms Ypv.C02.ancestry_is_chain
+#print axioms Ypv.C02.coords_chain
+#print axioms Ypv.C02.required_coords_chain
+#print axioms Ypv.C02.kids_coords_chain
